@@ -7,9 +7,9 @@
    value.  It is kept to state what was wrong (Proofs/Rtr.v, *_v0_refuted).
    [rtr_decode] is the repaired code, which the correspondence run ties to the
    working tree: frame by the length field first (length below the 8-byte
-   header is an error), parse exactly the frame, and turn a parse failure
-   (unknown PDU type, PDU shorter than its type needs) into an error instead
-   of "need more".
+   header is an error), drop complete PDUs of types the client does not use,
+   parse exactly the frame, and turn a parse failure (PDU shorter than its type
+   needs) into an error instead of "need more".
    No proofs in this file. *)
 From Coq Require Import List ZArith NArith Bool.
 From RB Require Import Base.Val Base.Bytes Model.Stream.
@@ -93,31 +93,59 @@ Definition rtr_res := dres rtr_msg unit.
 Definition rtr_decode_v0 (src : list N) : rtr_res :=
   match rtr_from_bytes src with
   | Some (m, l) => if len src <? l then DPanic else DMsg m (skipn (N.to_nat l) src)
-  | None => DNeed
+  | None => DNeed src
   end.
 
-(* ---- the repaired decoder.
+(* ---- the repaired decoder (f773db1, then 698efb6: complete PDUs of types the client does
+   not use are dropped and the loop goes round again):
+     loop {
        if src.len() < 8 { return Ok(None) }
        let length = u32::from_be_bytes([src[4], src[5], src[6], src[7]]) as usize;
        if length < 8 { return Err(..) }
        if src.len() < length { return Ok(None) }
        let frame = src.split_to(length);
-       Message::from_bytes(&frame).map(|(m, _)| Some(m))            *)
-Definition rtr_decode (src : list N) : rtr_res :=
-  if len src <? 8 then DNeed else
+       if !Message::is_used_type(frame[1]) { continue }
+       return Message::from_bytes(&frame).map(|(m, _)| Some(m));
+     }                                                                   *)
+Definition is_used_type (t : N) : bool := existsb (N.eqb t) [0; 1; 2; 3; 4; 6; 7; 8; 10].
+
+Inductive rtr_step_res :=
+| RsDone (r : rtr_res)
+| RsSkip (rest : list N).          (* an unused PDU was dropped: go round again *)
+
+(* one turn of the loop *)
+Definition rtr_step (src : list N) : rtr_step_res :=
+  if len src <? 8 then RsDone (DNeed src) else
   match src with
   | _ :: _ :: _ :: _ :: a :: b :: c :: d :: _ =>
     let length := be32 a b c d in
-    if length <? 8 then DErr tt src else
-    if len src <? length then DNeed else
+    if length <? 8 then RsDone (DErr tt src) else
+    if len src <? length then RsDone (DNeed src) else
     let frame := firstn (N.to_nat length) src in
     let rest := skipn (N.to_nat length) src in
-    match rtr_from_bytes frame with
-    | Some (m, _) => DMsg m rest
-    | None => DErr tt rest
+    match nth_error frame 1 with
+    | None => RsDone DPanic                              (* frame[1] *)
+    | Some ty =>
+      if negb (is_used_type ty) then RsSkip rest else
+      match rtr_from_bytes frame with
+      | Some (m, _) => RsDone (DMsg m rest)
+      | None => RsDone (DErr tt rest)
+      end
     end
-  | _ => DPanic                                         (* src[4..8] *)
+  | _ => RsDone DPanic                                   (* src[4..8] *)
   end.
+
+(* the loop on fuel; Proofs/Rtr.v shows S (length src) turns are never exhausted *)
+Fixpoint rtr_decode_fuel (fuel : nat) (src : list N) : rtr_res :=
+  match fuel with
+  | O => DPanic
+  | S f => match rtr_step src with
+           | RsDone r => r
+           | RsSkip rest => rtr_decode_fuel f rest
+           end
+  end.
+
+Definition rtr_decode (src : list N) : rtr_res := rtr_decode_fuel (S (length src)) src.
 
 (* ------------------------------------------------------------ observation *)
 Definition v_rtr_msg (m : rtr_msg) : val :=
